@@ -470,17 +470,48 @@ PL3 = [(0, 0, 0), (1024, 2048, 2048), (1024, 2048, 2032), (2048, 4096, 4096), (2
 PA = [(0, 0), (3072, 4096), (-2560, 0), (0, 2560), (2560, 2560)]
 
 
+def random_points(rng, m, r, n, bound=7600):
+    """Seeded 2D lattice points: each new point is either about one minimum distance `m` away
+    from an earlier one, about `r` away from the origin (both within one unit of the limit, on
+    either side, sometimes inside the band), or anywhere.  Any integer lattice keeps the float
+    comparisons of the code exact (squared distances < 2^31)."""
+    import math
+    pts = [(0, 0)]
+    while len(pts) < n:
+        u = rng.random()
+        if u < 0.5:
+            b = pts[rng.randrange(len(pts))]
+            dx = rng.randrange(-m, m + 1)
+            dy = (math.isqrt(m * m - dx * dx) + rng.choice([-1, 0, 0, 1])) * rng.choice([-1, 1])
+            p = (b[0] + dx, b[1] + dy)
+        elif u < 0.8:
+            x = rng.randrange(-r, r + 1)
+            p = (x, (math.isqrt(r * r - x * x) + rng.choice([-1, 0, 0, 1])) * rng.choice([-1, 1]))
+        else:
+            p = (rng.randrange(-r, r + 1), rng.randrange(-r, r + 1))
+        if max(abs(p[0]), abs(p[1])) <= bound:
+            pts.append(p)
+    return pts
+
+
 def geometry_configs(quick):
     base = {"Kinds": tla_set(["D", "V"]), "ConnN": "{}", "ConnSp": "{}", "MinTrapsS": "{1}",
             "MaxTrapsS": "{0}", "Fill4S": "{2}", "OptFill4S": "{0}", "TMax": "0"}
     cfgs = []
     cfgs.append(("plain2d", P2 if not quick else P2[:12], {
-        **base, "NMax": "3" if quick else "4", "Dims": "{2, 3}", "MaxAtomsS": "{0, 2, 3}",
+        **base, "NMax": "3" if quick else "5", "Dims": "{2, 3}", "MaxAtomsS": "{0, 2, 3}",
         "MinDistS": "{0, 5120}", "MaxRadS": "{0, 5}"}))
+    if not quick:
+        import random
+        rng = random.Random(seed() * 7919 + 12)
+        for k in range(2):
+            cfgs.append((f"plain2d-seeded{k}", random_points(rng, 5120, 5120, 11), {
+                **base, "NMax": "4", "Dims": "{2}", "MaxAtomsS": "{0, 3}",
+                "MinDistS": "{0, 5120}", "MaxRadS": "{0, 5}"}))
     cfgs.append(("plain3d", P3 if not quick else P3[:10], {
         **base, "NMax": "3" if quick else "4", "Dims": "{2, 3}", "MaxAtomsS": "{0, 2, 3}",
         "MinDistS": "{0, 3072}", "MaxRadS": "{0, 6}"}))
-    cfgs.append(("layout2d", PL[:7], {
+    cfgs.append(("layout2d", PL[:7] if quick else PL[:8], {
         **base, "NMax": "3" if quick else "4", "TMax": "3" if quick else "4",
         "Dims": "{2}", "MaxAtomsS": "{0, 2}",
         "MinDistS": "{5120}" if quick else "{0, 5120}", "MaxRadS": "{0, 5}",
